@@ -34,7 +34,7 @@ func scopeOf(se *world.Sess) string {
 }
 
 func runC20(t *simrt.Tape, o Opts) Outcome {
-	cfg := schedCfg(t, o, false)
+	cfg := schedCfg(t, o, true)
 	var w *world.World
 	var st Stats
 	s := simrt.Run(t, cfg, func(s *simrt.Sim) {
@@ -46,10 +46,9 @@ func runC20(t *simrt.Tape, o Opts) Outcome {
 		h.payloadClasses = []int{2}
 		h.newProc()
 		pol := h.base
-		fits := func(c world.PolicyCfg) bool {
-			ok := func(pol string, capn int) bool { return pol == "" || pol == "simple" || capn >= 99 }
-			return ok(c.SKPolicy, c.SKCap) && ok(c.IKPolicy, c.IKCap)
-		}
+		okCache := func(pol string, capn int) bool { return pol == "" || pol == "simple" || capn >= 99 }
+		fitsSK := func(c world.PolicyCfg) bool { return okCache(c.SKPolicy, c.SKCap) }
+		fitsIK := func(c world.PolicyCfg) bool { return okCache(c.IKPolicy, c.IKCap) }
 		type seen struct {
 			at      time.Duration
 			revoked bool
@@ -110,7 +109,7 @@ func runC20(t *simrt.Tape, o Opts) Outcome {
 			return false
 		}
 		kmsClause := func(op *world.OpRec, p *world.Proc) {
-			if !p.Cfg.CacheSK || !fits(p.Cfg) {
+			if !p.Cfg.CacheSK || !fitsSK(p.Cfg) {
 				return
 			}
 			for _, c := range w.Calls {
@@ -175,7 +174,7 @@ func runC20(t *simrt.Tape, o Opts) Outcome {
 			p := se.P
 			kmsClause(op, p)
 			noRetention(op, p)
-			if !p.Cfg.CacheIK && !p.Cfg.SharedIK || p.Cfg.SessionCache || !fits(p.Cfg) {
+			if !p.Cfg.CacheIK && !p.Cfg.SharedIK || p.Cfg.SessionCache || !fitsIK(p.Cfg) {
 				return
 			}
 			sc := scopeOf(se)
@@ -222,7 +221,7 @@ func runC20(t *simrt.Tape, o Opts) Outcome {
 			p := se.P
 			kmsClause(op, p)
 			noRetention(op, p)
-			if !p.Cfg.CacheIK && !p.Cfg.SharedIK || p.Cfg.SessionCache || !fits(p.Cfg) {
+			if !p.Cfg.CacheIK && !p.Cfg.SharedIK || p.Cfg.SessionCache || !fitsIK(p.Cfg) {
 				return
 			}
 			sc := scopeOf(se)
@@ -257,6 +256,63 @@ func runC20(t *simrt.Tape, o Opts) Outcome {
 		n := 10 + t.Choose(scale(o, 60, 180), "nops")
 		for i := 0; i < n && len(w.Viols) == 0; i++ {
 			h.step()
+		}
+		// concurrent cold start: a fresh factory is hit by several sessions of different partitions at
+		// once; the system key they all need is unwrapped by the KMS once, whatever the interleaving
+		if len(w.Viols) == 0 && len(w.Recs) > 0 && t.Choose(2, "cold-start") == 1 {
+			cp := pol
+			cp.CacheSK, cp.SKPolicy, cp.SKCap = true, "", 1000
+			fresh := w.NewProc(cp)
+			byPart := map[string]*world.Rec{}
+			var order []string
+			for _, r := range w.Recs {
+				if byPart[r.Part] == nil {
+					order = append(order, r.Part)
+				}
+				byPart[r.Part] = r // the newest record of each partition
+			}
+			// only records whose IK hangs under the one SK most of them share
+			skOf := func(r *world.Rec) int64 {
+				row, _ := w.Store.Rows.Get(r.IKID, r.IKCreated)
+				if row == nil || row.ParentKeyMeta == nil {
+					return 0
+				}
+				return row.ParentKeyMeta.Created
+			}
+			first := skOf(byPart[order[0]])
+			before := len(w.Calls)
+			var tasks []*simrt.Task
+			n := 0
+			for _, part := range order {
+				rec := byPart[part]
+				if skOf(rec) != first || first == 0 {
+					continue
+				}
+				n++
+				tasks = append(tasks, s.Go("cold-"+part, func() {
+					se, err := w.Open(fresh, part)
+					if err != nil {
+						return
+					}
+					w.Decrypt(se, &rec.DRR)
+				}))
+			}
+			for _, tk := range tasks {
+				s.Join(tk)
+			}
+			unwraps := 0
+			for _, c := range w.Calls[before:] {
+				if c.Proc == fresh.ID && c.Class == "kms.dec" && c.Result == "ok" {
+					unwraps++
+				}
+			}
+			if n >= 2 {
+				count(st.Oracle, "concurrent-cold-start-one-unwrap")
+				clauses["cold-start"] = true
+				if unwraps > 1 {
+					w.Violate("sk-unwrapped-twice", "sk-unwrapped-twice/concurrent-cold-start", "%d sessions of different partitions hit a fresh factory concurrently and the KMS unwrapped the one system key they share %d times", n, unwraps)
+				}
+			}
 		}
 		zero := clauses["zero-encrypt"] || clauses["zero-decrypt"]
 		re := clauses["reread-encrypt"] || clauses["reread-decrypt"]
